@@ -43,6 +43,8 @@ type World struct {
 	Gov    string
 	// names for addresses (module accounts, pools) used when dumping state
 	Names map[string]string
+	// the denom USDC has on this chain (set by SeedStandardWith; "uusdc" unless the world variant says otherwise)
+	USDC string
 }
 
 type TxReq struct {
